@@ -341,13 +341,19 @@ def _authority_split(ch: Checker, ce: ConstEval) -> None:
                     return norm(c)
                 if c.func.attr in ('find', 'index') and len(c.args) >= 2 and ce.try_eval(m, c.args[1]) != 0:
                     return norm(c)
+            # the authority must not be located relative to an "@": splitting off the userinfo is Url._parse's job, and an "@" may sit in the path or query
+            if isinstance(c, ast.Call) and isinstance(c.func, ast.Attribute) and c.args and ce.try_eval(m, c.args[0]) == b'@' \
+                    and c.func.attr in ('split', 'rsplit', 'partition', 'rpartition', 'find', 'rfind', 'index', 'rindex'):
+                return norm(c)
+            if isinstance(c, ast.Call) and attr_chain(c.func) == '__updated__':
+                return 'an item store into the split result (%s)' % norm(c)[:60]
         return None
 
     for p in fpaths(g):
         ch.paths += 1
         if p.exit_kind != 'return':
             continue
-        sym = Sym(p)
+        sym = Sym(p, item_stores=True)
         fd = allfacts(p)
         for i, st in p.stmts():
             for c in walk_no_nested(st):
@@ -363,7 +369,7 @@ def _authority_split(ch: Checker, ce: ConstEval) -> None:
                     except SyntaxError:
                         pass
                 if off:
-                    bad = ('the authority is cut out with %s, a search for "/" that does not start at the beginning of the text after the scheme: a "/" (or "@") inside the path or query '
+                    bad = ('the authority is cut out with %s -- not simply the text before the first "/" after the scheme: a "/" or "@" inside the path or query '
                            'moves the cut, and text from the path/query is parsed as the destination host' % off, p.describe(20))
                     continue
                 ok = False
